@@ -6,7 +6,8 @@
 From stdpp Require Import gmap sets list.
 From Coq Require Import NArith.
 From SV Require Import SM.IndexModel SM.IndexProofs SM.IndexSearchProofs SM.IndexShapes SM.IndexShapeProofs
-  SM.IndexUniqueProofs SM.IndexCopySetProofs SM.IndexMaint SM.IndexMaintProofs SM.IndexEquivProofs.
+  SM.IndexUniqueProofs SM.IndexCopySetProofs SM.IndexMaint SM.IndexMaintProofs SM.IndexEquivProofs
+  SM.IndexRemove SM.IndexRemoveProofs.
 
 Section C07.
   Variable fold : str → str.
@@ -212,6 +213,36 @@ Theorem c07_add_ents_iterated_twice_refuted :
   Inv ascii_fold st0 ∧ ents (ae_run ascii_fold add_ents_twice [1] true st0) = [1] ∧
   ¬ Inv ascii_fold (ae_run ascii_fold add_ents_twice [1] true st0).
 Proof. exact add_ents_twice_refuted. Qed.
+
+(** _remove_copyset as written (round 3): every shape of the helper that passes the four named obligations (the set is
+    found without raising and a missing set means nothing to do; the entity is discarded, not removed; the other
+    members stay; a set that became empty is dropped) is the model's [ix_remove] — the function every removal of the
+    model and of the generated maintenance program goes through — for every mapping, key and entity, and never raises.
+    Without the fourth obligation the only difference is an empty set left under the key: the same sets for every
+    reader ([ix_get]), which is what [ix_equiv] ignores.  The other shapes are refuted by computed witnesses:
+    [set.remove] raises KeyError, an inverted emptiness test loses the remaining members, no `is not None` guard raises
+    on an absent key. *)
+Theorem c07_remove_copyset_as_written : ∀ sh,
+  rc_ok sh = true →
+  (∀ k e (m : gmap str (gset nat)), rc_run sh k e m = (ix_remove k e m, 0)) ∧
+  (∀ k e (m : gmap (option str) (gset nat)), rc_run sh k e m = (ix_remove k e m, 0)).
+Proof. intros sh Hok. split; intros; by apply rc_run_ok. Qed.
+Theorem c07_remove_copyset_leaving_empty_sets_reader_equal : ∀ sh,
+  rc_reader_ok sh = true →
+  ∀ k e (m : gmap (option str) (gset nat)),
+    (rc_run sh k e m).2 = 0 ∧ ∀ k', ix_get (rc_run sh k e m).1 k' = ix_get (ix_remove k e m) k'.
+Proof. intros sh Hok k e m. by apply rc_run_reader_ok. Qed.
+Example c07_remove_copyset_today_ok : rc_ok rc_today = true.
+Proof. exact rc_today_ok. Qed.
+Theorem c07_remove_copyset_variants_refuted :
+  let m1 : gmap nat (gset nat) := {[ 7 := {[1; 2]} ]} in
+  (rc_discards rc_strict_remove = false ∧ (rc_run rc_strict_remove 7 3 m1).2 = 1 ∧ (ix_remove 7 3 m1) = m1) ∧
+  (rc_keeps_others rc_drop_inverted = false ∧ ix_get (rc_run rc_drop_inverted 7 1 m1).1 7 = ∅ ∧ ix_get (ix_remove 7 1 m1) 7 = {[2]}) ∧
+  (rc_lookup_ok rc_no_none_guard = false ∧ (rc_run rc_no_none_guard 8 1 m1).2 = 9) ∧
+  (rc_drops_empty rc_never_drops = false ∧ rc_reader_ok rc_never_drops = true ∧
+   (rc_run rc_never_drops 7 1 {[ 7 := {[1]} ]}).1 = ({[ 7 := ∅ ]} : gmap nat (gset nat)) ∧
+   ix_remove 7 1 ({[ 7 := {[1]} ]} : gmap nat (gset nat)) = ∅).
+Proof. exact rc_refutations. Qed.
 
 (** The hypotheses are satisfiable: ASCII lower-casing. *)
 Example c07_ascii_fold_ok :
